@@ -118,6 +118,18 @@ case("F35 auto plan, arg reduction, no requested label present", lambda: groupby
 # F36
 case("F36 blockwise over three reduced axes", lambda: groupby_reduce(da.ones((2, 2, 2), chunks=(1, 1, 1)), np.arange(8).reshape(2, 2, 2), func="sum", method="blockwise")[0].compute().tolist(), lambda r: r == [1.0] * 8)
 
+# F37
+case("F37 cohort planner with a zero-length chunk", lambda: groupby_reduce(da.from_array(np.array([1., 2., 4.]), chunks=((2, 0, 1),)), np.array([0, 1, 0]), func="sum")[0].compute().tolist(), lambda r: r == [5.0, 2.0])
+# F38
+def f38():
+    by = np.zeros((3, 3, 4), int); by[0, :, 0] = by[0, :, 2] = by[2, :, 0] = by[2, :, 2] = 1; by[1, :, 1] = by[1, :, 3] = 2
+    return groupby_reduce(da.from_array(np.arange(36.).reshape(3, 3, 4), chunks=1), by, func="sum")[0].compute().tolist()
+
+
+case("F38 cohort non-contiguous along two separated block axes", f38, lambda r: r == [318.0, 204.0, 108.0])
+# F39
+case("F39 unsorted axis tuple on a dask array", lambda: groupby_reduce(da.from_array(np.arange(24.).reshape(4, 6), chunks=((2, 2), (3, 3))), np.array([[0, 1, 0, 1, 2, 1]] * 2 + [[2, 0, 2, 3, 3, 3]] * 2), func="sum", axis=(1, 0))[0].compute().tolist(), lambda r: r == [48.0, 36.0, 78.0, 114.0])
+
 bad = 0
 for name, verdict in results:
     print(f"{name:55s} {verdict}")
